@@ -79,9 +79,13 @@ pub fn load<'a>(ctx: &mut Ctx, g: &'a Guarded) -> Option<Multiboot2Header<'a>> {
 
 pub fn walk(ctx: &mut Ctx, g: &Guarded, h: &Multiboot2Header) {
     let mut it = h.iter();
+    let mut n = 0usize;
     loop {
         match guard(|| it.next()) {
-            Ok(Some(t)) => ctx.ln("tag", htag_line(g, t)),
+            Ok(Some(t)) => {
+                n += 1;
+                ctx.ln("tag", htag_line(g, t))
+            }
             Ok(None) => {
                 ctx.ln("tags", "VAL END");
                 break;
@@ -92,6 +96,22 @@ pub fn walk(ctx: &mut Ctx, g: &Guarded, h: &Multiboot2Header) {
             }
         }
     }
+    // provided Iterator methods on fresh iterators
+    for k in [0, 1, n.saturating_sub(1), n, n + 1] {
+        let v = match guard(|| h.iter().nth(k)) {
+            Ok(Some(t)) => format!("VAL {}", view(g, t)),
+            Ok(None) => "VAL none".to_string(),
+            Err(()) => "PANIC".to_string(),
+        };
+        ctx.ln("tags_nth", format!("{} {}", k, v));
+    }
+    ctx.ln(
+        "tags_count",
+        match guard(|| h.iter().count()) {
+            Ok(c) => format!("VAL {}", c),
+            Err(()) => "PANIC".to_string(),
+        },
+    );
 }
 
 /// `typ= flags= size=` of a typed header tag, read as raw bytes; enum-typed
